@@ -1255,6 +1255,11 @@ impl<'a> GeneratorState<'a> {
             _ => self.asm(if load { LDA } else { STA }, expr, pos, false)?,
         };
         self.protected = false;
+        // LDA, TXA, TYA, TAX and TAY set N and Z: they no longer describe what they did
+        if load || matches!(expr, ExprType::X | ExprType::Y) {
+            self.flags = FlagsState::Unknown;
+            self.carry_flag_ok = false;
+        }
         Ok(())
     }
 
